@@ -9,56 +9,6 @@ verus! {
 //@include common/pbf_reader.vrs
 //@include common/pbf_writer.vrs
 
-#[derive(Clone, Copy, PartialEq, Eq, Structural)]
-//@extract enum file="versatiles_geometry/src/vector_tile/geometry_type.rs" name="GeomType"
-//@end
-pub open spec fn geom_code(g: GeomType) -> nat { match g { GeomType::Unknown => 0, GeomType::MultiPoint => 1, GeomType::MultiLineString => 2, GeomType::MultiPolygon => 3 } }
-impl GeomType {
-	// trusted: `*self as u64` is the declared discriminant
-	#[verifier::external_body]
-	pub fn as_u64(&self) -> (r: u64) ensures r == geom_code(*self) { unimplemented!() }
-}
-//@extract fn file="versatiles_geometry/src/vector_tile/geometry_type.rs" scope="impl From<u64> for GeomType" name="from" as="geom_type_from"
-//@rewrite "Self" => "GeomType"
-//@ret r
-//@spec
-	ensures value <= 3 ==> geom_code(r) == value, value > 3 ==> r == GeomType::Unknown
-//@end
-
-//@extract struct file="versatiles_geometry/src/vector_tile/feature.rs" name="VectorTileFeature"
-//@end
-impl VectorTileFeature {
-	pub fn default() -> (r: VectorTileFeature)
-		ensures r.id is None, r.tag_ids@.len() == 0, r.geom_type == GeomType::Unknown, r.geom_data@.len() == 0
-	{ VectorTileFeature { id: None, tag_ids: Vec::new(), geom_type: GeomType::Unknown, geom_data: Blob::new_empty() } }   // verbatim field values of `impl Default`
-
-	// MVT 2.1 §4.2: message Feature { optional uint64 id = 1; repeated uint32 tags = 2 [packed]; optional GeomType type = 3; repeated uint32 geometry = 4 [packed]; }
-	pub open spec fn wire(&self) -> Seq<u8> {
-		(match self.id { Some(v) => pbf_key(1, 0) + enc(v as nat), None => Seq::<u8>::empty() })
-		+ (if self.tag_ids@.len() > 0 { let p = packed_u32(self.tag_ids@, self.tag_ids@.len() as int); pbf_key(2, 2) + enc(p.len() as nat) + p } else { Seq::<u8>::empty() })
-		+ pbf_key(3, 0) + enc(geom_code(self.geom_type))
-		+ (if self.geom_data@.len() > 0 { pbf_key(4, 2) + enc(self.geom_data@.len() as nat) + self.geom_data@ } else { Seq::<u8>::empty() })
-	}
-
-//@extract fn file="versatiles_geometry/src/vector_tile/feature.rs" scope="impl VectorTileFeature" name="to_blob"
-//@ret r
-//@spec
-		// every present field is written, with its value, in field order: id (also id 0), tags, type, geometry
-		ensures r is Ok, r.unwrap()@ == self.wire()
-//@end
-//@extract fn file="versatiles_geometry/src/vector_tile/feature.rs" scope="impl VectorTileFeature" name="read"
-//@rewrite "reader: &mut dyn ValueReader<'_, LE>" => "reader: &mut ValueReaderSlice" R6
-//@rewrite "GeomType::from(" => "geom_type_from(" R7
-//@rewrite "VectorTileFeature::default()" => "VectorTileFeature::default()"
-//@ret r
-//@spec
-		// arbitrary bytes: a feature or an error; no panic, terminates, allocations bounded by the input (C19)
-		requires old(reader).wf()
-		ensures final(reader).wf(), final(reader).cursor.data@ == old(reader).cursor.data@,
-//@loop 1
-			invariant reader.wf(), reader.cursor.data@ == old(reader).cursor.data@, reader.len == old(reader).len,
-			decreases reader.len - reader.cursor.pos
-//@end
-}
+//@include common/vt_feature.vrs
 } // verus!
 fn main() {}
